@@ -30,9 +30,9 @@ def wire (h : Handlers D) : Msg D → Except Exc Ev
   | .media d .text => match h.textSer d with | .ok s => .ok (.sendText s) | .error e => .error e
   | .media d .binary => match h.binSer d with | .ok b => .ok (.sendBytes b) | .error e => .error e
 
-theorem send_ok (w : W) (e : Ev) (hst : w.st = .accepted) (hf : w.failAt = none) :
+theorem send_ok (w : W) (e : Ev) (hst : w.st = .accepted) (hf : w.failAt = none) (hr : w.refuses e = false) :
     w.send_ none e = ({ w with sent := w.sent ++ [(e, true)] }, none) := by
-  simp [W.send_, W.asgiSend, hst, hf]
+  simp [W.send_, W.asgiSend, hst, hf, hr]
 
 /-- one send on an accepted, connected socket with a working server `send`: exactly the wire event, once -/
 theorem msg_op_exact (h : Handlers D) (w : W) (m : Msg D) (e : Ev) (hst : w.st = .accepted) (hf : w.failAt = none)
@@ -41,10 +41,10 @@ theorem msg_op_exact (h : Handlers D) (w : W) (m : Msg D) (e : Ev) (hst : w.st =
   cases m with
   | text p =>
     simp only [wire, Except.ok.injEq] at hw; subst hw
-    simp [Msg.op, W.op, W.sendText, W.requireAccepted, hst, send_ok w _ hst hf, outOf]
+    simp [Msg.op, W.op, W.sendText, W.requireAccepted, hst, send_ok w (.sendText p) hst hf rfl, outOf]
   | data p =>
     simp only [wire, Except.ok.injEq] at hw; subst hw
-    simp [Msg.op, W.op, W.sendData, W.requireAccepted, hst, send_ok w _ hst hf, outOf]
+    simp [Msg.op, W.op, W.sendData, W.requireAccepted, hst, send_ok w (.sendBytes p) hst hf rfl, outOf]
   | media d ty =>
     cases ty with
     | text =>
@@ -53,14 +53,14 @@ theorem msg_op_exact (h : Handlers D) (w : W) (m : Msg D) (e : Ev) (hst : w.st =
       | error x => simp [hs] at hw
       | ok s =>
         simp only [hs, Except.ok.injEq] at hw; subst hw
-        simp [Msg.op, W.op, W.sendMedia, W.requireAccepted, hst, hs, send_ok w _ hst hf, outOf]
+        simp [Msg.op, W.op, W.sendMedia, W.requireAccepted, hst, hs, send_ok w (.sendText s) hst hf rfl, outOf]
     | binary =>
       simp only [wire] at hw
       cases hs : h.binSer d with
       | error x => simp [hs] at hw
       | ok s =>
         simp only [hs, Except.ok.injEq] at hw; subst hw
-        simp [Msg.op, W.op, W.sendMedia, W.requireAccepted, hst, hs, send_ok w _ hst hf, outOf]
+        simp [Msg.op, W.op, W.sendMedia, W.requireAccepted, hst, hs, send_ok w (.sendBytes s) hst hf rfl, outOf]
 
 /-- a `serialize` that raises: the handler's exception reaches the caller, nothing is handed to the server and the socket is
     unchanged — whatever the disconnect flag says (the event dict is built before `_send` runs) -/
@@ -487,9 +487,14 @@ example : ∃ e, wire (harnessHandlers true) (.media (some (.obj [(['i'], .arr [
 section
 variable (h : Handlers D) (binOk : Bool)
 
+theorem proj_refuses (w : W) (e : Ev) : (proj h binOk w).refuses (projEv e) = w.refuses e := by
+  cases e <;> rfl
+
 theorem proj_asgiSend (w : W) (e : Ev) :
     (proj h binOk w).asgiSend (projEv e) = (proj h binOk (w.asgiSend e).1, (w.asgiSend e).2) := by
-  simp [proj, Ws.W.asgiSend, W.asgiSend]
+  unfold Ws.W.asgiSend W.asgiSend
+  rw [proj_refuses]
+  simp [proj]
 
 theorem proj_send_ (w : W) (d : Option Int) (e : Ev) :
     (proj h binOk w).send_ d (projEv e) = (proj h binOk (w.send_ d e).1, (w.send_ d e).2) := by
@@ -878,7 +883,13 @@ theorem proj_cleanup (h : Handlers D) (binOk : Bool) (w : W) (fd : Option Int) :
   rcases w.close fd (.int w.errCloseCode) false with ⟨w1, eo⟩
   cases eo with
   | none => rfl
-  | some e => cases e <;> first | rfl | exact proj_close h binOk w1 fd (.int 3011) false
+  | some e =>
+    have hsay : Ws.closeSaysInvalidCode (proj h binOk w) (proj h binOk w1) e = closeSaysInvalidCode w w1 e := by
+      simp [Ws.closeSaysInvalidCode, closeSaysInvalidCode, proj]
+    simp only [hsay]
+    split
+    · exact proj_close h binOk w1 fd (.int 3011) false
+    · rfl
 
 theorem cleanup_wf {w : W} (hwf : InboxWf w) (fd : Option Int) : InboxWf (cleanup w fd).1 := by
   unfold cleanup
@@ -887,7 +898,11 @@ theorem cleanup_wf {w : W} (hwf : InboxWf w) (fd : Option Int) : InboxWf (cleanu
   rw [hcl] at h1
   cases eo with
   | none => exact h1
-  | some e => cases e <;> first | exact h1 | exact InboxWf.close h1 fd (.int 3011) false
+  | some e =>
+    simp only
+    split
+    · exact InboxWf.close h1 fd (.int 3011) false
+    · exact h1
 
 /-- the scripts of a configuration serialize only serializable documents -/
 def CfgOk (h : Handlers D) (c : Cfg D) : Prop := ∀ hs, c.custom = some hs → ScriptOk h hs
